@@ -85,8 +85,13 @@ def wire_val(v):
     return "void" if v == "u32s:" else v
 
 
+# environment of the run (fact wireExpNe0): replies show every non-zero ExpiredAt, or only positive ones
+EXP_NE0 = False
+
+
 def show_rec(r):
-    return "|".join([wire_val(r["val"]), ts_wire(r["ca"]), r["cb"], ts_wire(r["ua"]), r["ub"], ts_wire(r["exp"])])
+    exp = r["exp"] if EXP_NE0 else ts_wire(r["exp"])
+    return "|".join([wire_val(r["val"]), ts_wire(r["ca"]), r["cb"], ts_wire(r["ua"]), r["ub"], exp])
 
 
 def parse_rec(tok):
